@@ -19,7 +19,10 @@ generator MC_PkarrTs.tla.
 
 Mutation self-test (2026-09-22): `micros.max(last + 1)` -> `micros.max(last)` in Timestamp::now
 => VIOLATION (trace rejected at the `end` of the first call whose forced reading is not ahead of
-LAST); undone => exit 0.
+LAST: run with readings t2:[3,..] t1:[10,3] returned 10 twice); undone => exit 0.
+
+Binding self-test (every run): an accepted trace in which one call is made to return the value of
+an earlier call must be rejected by TLC.
 """
 import json
 import random
@@ -159,6 +162,8 @@ def validate(ctx, good):
             return
         if res.ok:
             ctx.log("trace of %d runs (%d events) accepted" % (len(good), len(flat)))
+            if not ctx.replay:
+                selftest(ctx, good)
             return
         at = res.trace_rejected_at
         if at is None or at < 1 or at > len(flat):
@@ -174,3 +179,33 @@ def validate(ctx, good):
         good = good[:idx] + good[idx + 1:]
         if attempts >= 4:
             return
+
+
+def selftest(ctx, good):
+    """Binding self-test: an accepted trace in which one call returns the value of the call before it
+    (a duplicate timestamp) must be rejected."""
+    import copy
+    sub = [copy.deepcopy(ls) for (r, ls) in good if r["mode"] == "forced"][:200]
+    flat, target = [], None
+    for ls in sub:
+        ends = [i for i, e in enumerate(ls) if e["ev"] == "end"]
+        if target is None and len(ends) >= 2:
+            vals = sorted(ls[i]["v"] for i in ends)
+            victim = [i for i in ends if ls[i]["v"] == vals[1]][0]
+            t = ls[victim]["t"]
+            for j in range(victim, -1, -1):            # the matching begin carries the value too
+                if ls[j]["ev"] == "begin" and ls[j]["t"] == t:
+                    ls[j]["v"] = vals[0]
+                    break
+            ls[victim]["v"] = vals[0]
+            target = len(flat) + victim + 1
+        flat += ls
+    if target is None:
+        return
+    tf = ctx.write_ndjson("c33-selftest.ndjson", flat)
+    res = ctx.tlc_trace("dns", "Trace_PkarrTs", tf, timeout=1500)
+    if res.ok or res.trace_rejected_at is None or res.trace_rejected_at > target:
+        raise ToolError("binding self-test: a trace with a duplicated timestamp (event %s) was accepted / rejected too late (%s)"
+                        % (target, res.trace_rejected_at))
+    ctx.log("binding self-test: duplicated timestamp rejected at event %d (corrupted event %d)" % (res.trace_rejected_at, target))
+    ctx.cov["binding_selftests"] = ["duplicate_timestamp"]
